@@ -340,7 +340,7 @@ class C16(Check):
             "extra_parse on EVERY byte string of length <= 2, on single-site mutations at every offset (7 substitutions, non-minimal "
             "and overflowing varint, delete, duplicate, truncate) of generated extras and of the extras of the repository's "
             "test-suite transactions/blocks, on tag-biased random strings; subfield_dec/decs on all strings <= 1 byte, mutations, random; "
-            "both cargo profiles (release, dev = overflow checks on); non-trivial = distinct case line; the oracle is an independent "
+            "extra_from_len at the 32 MiB boundary of RawExtraField::from; both cargo profiles (release, dev = overflow checks on); non-trivial = distinct case line; the oracle is an independent "
             "python implementation of the grammar and of the loop (strict LEB128, cap, Ed25519 validity by python integers)")
     level_note = ("theorems are about the Gallina model Model/Extra.v, with PublicKey::from_slice acceptance an arbitrary predicate "
                   "(instance Ed25519.pk_valid in the evaluators) and std::io::Cursor's position after a short read a modelled std "
@@ -441,6 +441,9 @@ class C16(Check):
             srt(("pk", b), "invalid-key")
             parse(b"\x01" + b, "invalid-key-bytes")
             parse(b"\x04\x02" + keys.get(rng) + b + b"\x02\x01\x07", "invalid-key-bytes")
+        # allocation-cap boundary of RawExtraField::from (1 tag + 4 length bytes + n <= 32 MiB, else the unwrap panics)
+        for n in (CAP - 6, CAP - 5, CAP - 4, CAP - 3, CAP, CAP + 1, 0, 1000):
+            cs.append(Case("extra_from_len %d" % n, "from-cap-boundary"))
         # random sequences
         for _ in range(2500 if not thorough else 60000):
             n = rng.randint(0, 8)
@@ -523,6 +526,8 @@ class C16(Check):
     def evalA_ok(self, line):
         """key validation costs ~10 s per key under coqc vm_compute: only lines that validate no key"""
         a = line.split(" ")
+        if a[0] == "extra_from_len":
+            return True
         if a[0] in ("extra_parse", "subfield_dec", "subfield_decs"):
             raw = b"" if a[1] == "-" else bytes.fromhex(a[1])
             return best_effort(raw)[2] == 0 and len(raw) < 600
@@ -559,10 +564,17 @@ class C16(Check):
 
     def oracle(self, case, impl, ctx):
         w = impl.split(" ")
-        if w[0] in ("PANIC", "ABORT", "TIMEOUT", "FUEL") or "PANIC" in impl:
-            return "implementation did not return a value: " + w[0]
         a = case.line.split(" ")
         op = a[0]
+        if op == "extra_from_len":
+            # outside the property's side condition (serialised sub-fields beyond the 32 MiB cap) the conversion is
+            # known to panic (theorem C16_from_panics_over_cap); inside it must return the concatenation
+            n = int(a[1])
+            total = 1 + len(leb(n)) + n
+            exp = ("OK %d" % total) if total <= CAP else "PANIC"
+            return None if impl == exp else "RawExtraField::from on a %d-byte nonce gave %s, expected %s" % (n, impl[:60], exp)
+        if w[0] in ("PANIC", "ABORT", "TIMEOUT", "FUEL") or "PANIC" in impl:
+            return "implementation did not return a value: " + w[0]
         if op == "extra_parse":
             raw = b"" if a[1] == "-" else bytes.fromhex(a[1])
             exp = expected_parse(raw)
@@ -620,6 +632,8 @@ class C16(Check):
 
     def neighbours(self, case, rng):
         a = case.line.split(" ")
+        if a[0] == "extra_from_len":
+            return []
         if a[0] in ("extra_parse", "subfield_dec", "subfield_decs"):
             raw = b"" if a[1] == "-" else bytes.fromhex(a[1])
         else:
